@@ -395,8 +395,8 @@ def run(ctx):
         keys_sorted = sorted(groups)
         budget = "150" if ctx.tier == "quick" else "1500"
         starts = [min(groups[k], key=lambda x: x[0]) for k in keys_sorted]
-        # inputs of at most 24 bytes (the corpus of earlier minimised crashers) are not minimised again
-        todo = [i for i, st in enumerate(starts) if st[0] > 24]
+        # corpus entries (earlier minimised crashers) and inputs of at most 24 bytes are not minimised again
+        todo = [i for i, st in enumerate(starts) if st[0] > 24 and not st[2].startswith("corpus")]
         mins = [None] * len(starts)
         for i, m in zip(todo, run_sharded(hbin, ["min %s %s" % (hexs(starts[i][1]), budget) for i in todo], "m", per_req_s=3000)):
             mins[i] = m
